@@ -7,9 +7,18 @@
    compared per request). *)
 From Coq Require Import String.
 From Suiron Require Import Model.Term Model.Subst Model.Builtins Model.Rename Model.Solve Spec.SpecSolve
-  Spec.Refine Spec.SpecLazy Proofs.SolveDead Proofs.SolveMisc Proofs.RefinePlain Proofs.RefineDen.
+  Spec.Refine Spec.SpecLazy Spec.SpecCut Proofs.SolveDead Proofs.SolveMisc Proofs.RefinePlain Proofs.RefineDen Proofs.RefineCut.
 
-Definition C04_full_with_cut : Prop := refines_reference.
+(* For EVERY program (cut, not, time included) the order and multiplicity of output is PROVED:
+   the final world reached by draining a query - its `out` field is everything written - is
+   the final world of the reference search (Spec/SpecCut.v), which writes exactly when it
+   executes a print goal, once per execution, in depth-first order; and after every single
+   answer the world is the one the reference search has reached at that point (C01_step_all). *)
+Theorem C04_output_of_search : forall kb bf q w fs R nd w1 m F R',
+  canswers kb bf fs q w = Ok R ->
+  make_base_node kb (GCall q) w = Ok (nd, w1) ->
+  ask_all kb bf m F nd w1 = Ok R' -> out (snd R') = out (snd R).
+Proof. intros. now rewrite (refines_cut kb bf q w fs R nd w1 m F R'). Qed.
 
 (* For cut-free programs (calls, conjunctions, disjunctions, built-ins incl. print, print_list,
    nl) the order and multiplicity of output is PROVED: the final world reached by draining a
@@ -47,6 +56,7 @@ Check C04_print_format : forall p0 pieces args,
   no_pct p0 -> Forall no_pct pieces ->
   format_for_print_pred (with_markers p0 pieces :: args) = Ok (p0 ++ fill args pieces).
 
+Print Assumptions C04_output_of_search.
 Print Assumptions C04_output_of_cutfree_search.
 Print Assumptions C04_print_format.
 Print Assumptions C04_no_output_after_exhaustion.
